@@ -6,7 +6,7 @@
 From Coq Require Import Permutation.
 From DivanV Require Import Base.Res Model.Registry Model.Tree Model.Driver
   Proofs.TreeBase Proofs.DriverExec Proofs.DriverC14 Proofs.TreeLeaves Proofs.Flat Proofs.FlatBridge Proofs.Expand
-  Proofs.TreeEquiv Proofs.ListView Model.ListPush Proofs.ListPush.
+  Proofs.TreeEquiv Proofs.ListView Model.ListPush Proofs.ListPush Proofs.RawAttach.
 Local Open Scope N_scope.
 
 (** The leaves of the tree are the registered entries — each exactly once, under
@@ -31,11 +31,13 @@ Print Assumptions C12_order_independent_leaves.
 
 (** Groups attach by key: in the built tree the chain of (raw name, group) pairs
     above every leaf is a function of the leaf's raw path alone — the slot at
-    prefix P holds the last registered group whose module path + raw name is P
-    ([keyed_chain]); group insertion changes nothing else. *)
+    prefix P holds the last registered group whose attachment key is P
+    ([keyed_chain]); group insertion changes nothing else.  The attachment key
+    ([attach_key]) of a group is its module path followed by the name of the first
+    sibling module equal to its raw name up to a leading "r#". *)
 Theorem C12_groups_attach : forall benches groups,
   flat_map leaves_rel (build_tree benches groups)
-  = map (rekey groups) (raw_leaves (build_tree benches groups)).
+  = map (rekey (attach_key benches groups) groups) (raw_leaves (build_tree benches groups)).
 Proof. exact build_tree_leaves_rel. Qed.
 Print Assumptions C12_groups_attach.
 
@@ -45,7 +47,8 @@ Print Assumptions C12_groups_attach.
     prefixes. *)
 Theorem C12_registered_cases : forall c benches groups,
   Permutation (exec_forest c [] None (retain (c_filter c) (build_tree benches groups)))
-              (filter (fun x => c_filter c (xpath x)) (flat_map (keyed_case c groups) (all_entries benches groups))).
+              (filter (fun x => c_filter c (xpath x))
+                      (flat_map (keyed_case c (attach_key benches groups) groups) (all_entries benches groups))).
 Proof. exact exec_keyed_filtered. Qed.
 Print Assumptions C12_registered_cases.
 
@@ -57,10 +60,13 @@ Theorem C12_all_run_once : forall benches groups,
 Proof. exact all_run_once. Qed.
 Print Assumptions C12_all_run_once.
 
-(** Link / constructor order is irrelevant as long as no two group entries
-    have the same key. *)
+(** Link / constructor order is irrelevant as long as no two group entries attach
+    under the same key and the permuted registry attaches them under the same keys
+    (it does when no two sibling modules differ only by "r#": C12_attach_order_independent). *)
 Theorem C12_order_independent : forall c benches groups benches' groups',
-  Permutation benches benches' -> Permutation groups groups' -> NoDup (map group_key groups) ->
+  Permutation benches benches' -> Permutation groups groups' ->
+  NoDup (map (attach_key benches groups) groups) ->
+  (forall g, In g groups -> attach_key benches' groups' g = attach_key benches groups g) ->
   Permutation (exec_forest c [] None (retain (c_filter c) (build_tree benches groups)))
               (exec_forest c [] None (retain (c_filter c) (build_tree benches' groups'))).
 Proof. exact order_independent. Qed.
@@ -73,14 +79,16 @@ Print Assumptions C12_order_independent.
     [#[divan::bench_group]] modules above it, a generic function's own entry
     standing at its own key, nothing else. *)
 Theorem C12_flat_semantics : forall c benches groups,
-  no_name_clash benches groups ->
+  no_name_clash (attach_key benches groups) benches groups -> lookups_agree benches groups ->
   Permutation (exec_forest c [] None (retain (c_filter c) (build_tree benches groups)))
               (flat_exec c benches groups).
 Proof. exact exec_flat. Qed.
 Print Assumptions C12_flat_semantics.
 
 Theorem C12_guard_satisfiable :
-  no_name_clash [w_bench_a] [w_mod_group] /\ ~ no_name_clash [w_bench_a] [w_mod_group; w_fn_group].
+  no_name_clash (attach_key [w_bench_a] [w_mod_group]) [w_bench_a] [w_mod_group] /\
+  lookups_agree [w_bench_a] [w_mod_group] /\
+  ~ no_name_clash (attach_key [w_bench_a] [w_mod_group; w_fn_group]) [w_bench_a] [w_mod_group; w_fn_group].
 Proof. exact no_name_clash_example. Qed.
 Print Assumptions C12_guard_satisfiable.
 
@@ -89,7 +97,9 @@ Print Assumptions C12_guard_satisfiable.
     group keys) gives [forest_equiv] trees — equal up to sibling order at every
     level, group slots and argument lists included. *)
 Theorem C12_order_independent_tree : forall benches groups benches' groups',
-  Permutation benches benches' -> Permutation groups groups' -> NoDup (map group_key groups) ->
+  Permutation benches benches' -> Permutation groups groups' ->
+  NoDup (map (attach_key benches groups) groups) ->
+  (forall g, In g groups -> attach_key benches' groups' g = attach_key benches groups g) ->
   forest_equiv (build_tree benches groups) (build_tree benches' groups').
 Proof. exact tree_order_independent. Qed.
 Print Assumptions C12_order_independent_tree.
@@ -114,7 +124,7 @@ Print Assumptions C12_built_tree_inhabited.
     display path — and the walk does not panic. *)
 Theorem C12_list_view : forall srt, (forall t, forest_perm t (srt t)) ->
   forall c benches groups,
-  no_name_clash benches groups ->
+  no_name_clash (attach_key benches groups) benches groups -> lookups_agree benches groups ->
   snd (run_action c srt List benches groups) = None /\
   Permutation (painted_leaves (fst (run_action c srt List benches groups))) (flat_list c benches groups).
 Proof. exact list_view. Qed.
@@ -193,6 +203,50 @@ Theorem C12_push_hypotheses_satisfiable :
   l_pc s 1 = PDone /\ l_pc s 2 = PDone /\ walk 5 (l_next s) (l_head s) = [1; 2; 7].
 Proof. exact push_example. Qed.
 Print Assumptions C12_push_hypotheses_satisfiable.
+
+(** F12 (raw-identifier modules).  The group attaches to the sibling module whose
+    name equals its raw name up to a leading "r#": adding or removing the prefix on
+    the name looked for changes nothing (edition 2015 spells [mod r#try] as "try" in
+    [module_path!()], the group's raw name stays "r#try"). *)
+Theorem C12_groups_attach_raw : forall comps raw raw' stored l,
+  strip_raw raw = strip_raw raw' -> attach comps raw stored l = attach comps raw' stored l.
+Proof. exact groups_attach_raw. Qed.
+Print Assumptions C12_groups_attach_raw.
+
+Theorem C12_insert_group_is_attach : forall l g,
+  insert_group l g = attach (module_components (g_meta g)) (m_raw (g_meta g)) g l.
+Proof. exact insert_group_attach. Qed.
+Print Assumptions C12_insert_group_is_attach.
+
+(** ... and it is the insertion at the attachment key, exact from there on. *)
+Theorem C12_insert_group_by_key : forall l g, insert_group l g = ig (raw_key l g) g l.
+Proof. exact insert_group_ig. Qed.
+Print Assumptions C12_insert_group_by_key.
+
+(** Provided no two sibling modules differ only by "r#" ([no_raw_twins_level]), the
+    sibling a group attaches to does not depend on the order of the siblings. *)
+Theorem C12_attach_order_independent : forall raw l l',
+  Permutation l l' -> no_raw_twins_level l -> attach_name raw l = attach_name raw l'.
+Proof. exact attach_name_order_independent. Qed.
+Print Assumptions C12_attach_order_independent.
+
+Theorem C12_no_raw_twins_satisfiable :
+  no_raw_twins_level (map skel_of (from_benches [ABench x_bench; ABench w_bench_a])) /\
+  ~ no_raw_twins_level [SNode x_try []; SNode x_rtry []].
+Proof. exact no_raw_twins_example. Qed.
+Print Assumptions C12_no_raw_twins_satisfiable.
+
+(** The exact-match version (divan before the repair) loses the group: the
+    benchmark below [#[divan::bench_group(name = "G", ignore)] mod r#try] runs. *)
+Theorem C12_exact_match_refuted :
+  let T0 := from_benches [ABench x_bench] in
+  runs_a (flat_exec cfg_plain [x_bench] [x_group x_rtry]) = false /\
+  map xpath (exec_forest cfg_plain [] None (insert_group_exact T0 (x_group x_rtry))) = [[107; 58; 58; 116; 114; 121; 58; 58; 97]] /\
+  exec_forest cfg_plain [] None (insert_group T0 (x_group x_rtry)) = [] /\
+  exec_forest cfg_plain [] None (insert_group T0 (x_group x_try)) = [] /\
+  exec_forest cfg_plain [] None (build_tree [x_bench] [x_group x_rtry]) = [].
+Proof. exact exact_match_refuted. Qed.
+Print Assumptions C12_exact_match_refuted.
 
 (** Macro level: one [#[divan::bench]] registers nothing for exclusively empty
     [types]/[consts]; one [BenchEntry] without generics; otherwise one
